@@ -142,7 +142,7 @@ class Agg:
         self.run_digests = {}      # case index -> digest (first N cases)
         self.errors = []
         self.n_violations = 0
-        self.hang_seen = False     # a run tripped the wall-clock backstop: stop early, every further such run costs the full backstop
+        self.hang_seen = False     # a run tripped the CPU-time backstop: stop early, every further such run costs the full backstop
 
     def add_run(self, idx, out, rec, keep_digest):
         self.evaluations += 1
@@ -950,6 +950,6 @@ def main_check(check, argv):
           f"schedules={len(agg.scheds) * DISTINCT_SAMPLE} violations_found={agg.n_violations} reported={reported} "
           f"wall={wall:.1f}s rate={int(agg.evaluations / max(batch_wall, 1e-6) * 3600)}/h evidence={path}", flush=True)
     if truncated:
-        print(f"note: {truncated} cases not run (wall cap, or the batch was cut short after a run tripped the wall-clock backstop)",
+        print(f"note: {truncated} cases not run (wall cap, or the batch was cut short after a run tripped the CPU-time backstop)",
               flush=True)
     return rc
